@@ -108,3 +108,54 @@ namespace vh
   static Reg r1("build", buildCase);
   static Reg r2("markowitz", markowitzCase);
 }  // namespace vh
+
+namespace vh
+{
+  static std::string rosparamsCase(Tok& t)
+  {
+    std::size_t which = t.nat();
+    micm::RosenbrockSolverParameters p = micm::RosenbrockSolverParameters::ThreeStageRosenbrockParameters();
+    switch (which)
+    {
+      case 0: p = micm::RosenbrockSolverParameters::TwoStageRosenbrockParameters(); break;
+      case 1: p = micm::RosenbrockSolverParameters::ThreeStageRosenbrockParameters(); break;
+      case 2: p = micm::RosenbrockSolverParameters::FourStageRosenbrockParameters(); break;
+      case 3: p = micm::RosenbrockSolverParameters::FourStageDifferentialAlgebraicRosenbrockParameters(); break;
+      default: p = micm::RosenbrockSolverParameters::SixStageDifferentialAlgebraicRosenbrockParameters(); break;
+    }
+    Out o;
+    o.os << "rosparams stages=" << p.stages_ << " maxsteps=" << p.max_number_of_steps_;
+    o.key("a");
+    for (auto v : p.a_) o.d(v);
+    o.key("c");
+    for (auto v : p.c_) o.d(v);
+    o.key("m");
+    for (auto v : p.m_) o.d(v);
+    o.key("e");
+    for (auto v : p.e_) o.d(v);
+    o.key("alpha");
+    for (auto v : p.alpha_) o.d(v);
+    o.key("gamma");
+    for (auto v : p.gamma_) o.d(v);
+    o.key("newf");
+    for (auto v : p.new_function_evaluation_) o.n(v ? 1 : 0);
+    o.key("scal");
+    o.d(p.estimator_of_local_order_);
+    o.d(p.round_off_);
+    o.d(p.factor_min_);
+    o.d(p.factor_max_);
+    o.d(p.rejection_factor_decrease_);
+    o.d(p.safety_factor_);
+    o.d(p.h_min_);
+    o.d(p.h_max_);
+    o.d(p.h_start_);
+    micm::BackwardEulerSolverParameters b;
+    o.key("be");
+    o.d(b.small_);
+    o.d(b.h_start_);
+    o.d((double)b.max_number_of_steps_);
+    for (auto v : b.time_step_reductions_) o.d(v);
+    return o.os.str();
+  }
+  static Reg r3("rosparams", rosparamsCase);
+}  // namespace vh
